@@ -13,6 +13,8 @@ mod mon_c03;
 mod readers;
 mod textgen;
 mod mon_c04;
+mod mon_c05;
+mod refjson;
 mod mon_c06;
 mod mon_c07;
 mod mon_c08;
@@ -116,6 +118,7 @@ fn main() {
         "C02" => mon_c02::run(&mut ctx),
         "C03" => mon_c03::run(&mut ctx),
         "C04" => mon_c04::run(&mut ctx),
+        "C05" => mon_c05::run(&mut ctx),
         "C06" => mon_c06::run(&mut ctx),
         "C07" => mon_c07::run(&mut ctx),
         "C08" => mon_c08::run(&mut ctx),
